@@ -158,7 +158,7 @@ def force_genotypes(path, haplotypes, genotypes, cov_map, allele_depths, error_r
         # for all permutations, pick the one best fitting to allele depths of clusters
         clusts = cov_map[pos]
         given_config = [haplotypes[h][pos] for h in range(len(haplotypes))]
-        best_config = given_config
+        best_config = None
         best_likelihood = -float("inf")
         for perm in set(list(itertools.permutations(alleles_to_insert))):
             # build next config (given + affected slots permuted)
@@ -193,7 +193,9 @@ def force_genotypes(path, haplotypes, genotypes, cov_map, allele_depths, error_r
                         prob = binom.pmf(observed_depth, total_depth, allele_mult[a])
                         log_likelihood += log(prob) if prob > 0 else -float("inf")
 
-            if log_likelihood > best_likelihood:
+            # Always take one of the genotype-conforming configurations, even if
+            # all of them have likelihood zero (e.g. due to underflow at high depth)
+            if best_config is None or log_likelihood > best_likelihood:
                 best_likelihood = log_likelihood
                 best_config = newconfig
 
